@@ -1,5 +1,6 @@
 import Eru.Lock.ProofsRedis
 import Eru.Lock.ProofsEtcd
+import Eru.Lock.ProofsSpec
 /-
 C18 — distributed locks are mutually exclusive (both backends).
 Property theorems only (helpers: Eru/Lock/ProofsRedis.lean, ProofsEtcd.lean).
@@ -199,6 +200,47 @@ theorem waiter_outcome_etcd (p : Etcd.Params) (s s' : Etcd.State) (st : Etcd.Ste
   | loseLease j hj => simp only [Etcd.loseLease, hi]; exact ⟨fun e => (by cases e), fun e => (by cases e)⟩
   | watch j h1 h2 h3 => simp only [Etcd.watch, hi]; exact ⟨fun e => (by cases e), fun e => (by cases e)⟩
   | tick hg => simp only [hi]; exact ⟨fun e => (by cases e), fun e => (by cases e)⟩
+
+/-! ## what the oracle replays is the transition system the theorems are about -/
+
+/-- **exec_reach (Redis).**  Every state the oracle's schedule replay goes through is a reachable
+    state of `Redis.Step` (each command is a finite sequence of steps). -/
+theorem replay_reachable_redis (p : Redis.Params) (hp : 0 < p.wait) (cs : List Redis.Cmd) :
+    ∀ s ∈ Redis.replayStates p Redis.init cs, Redis.Reach p s :=
+  Redis.replay_reach hp cs Redis.init .init
+
+/-- **exec_reach (etcd).**  Same for the etcd model; the time jumps of blocked calls are `tick`s,
+    whose urgency guard is vacuous because a replayed `revoke` runs the watcher at once. -/
+theorem replay_reachable_etcd (p : Etcd.Params) (cs : List Etcd.Cmd) :
+    ∀ s ∈ Etcd.replayStates p.ttl Etcd.init cs, Etcd.Reach p s :=
+  Etcd.replay_reach cs Etcd.init (Etcd.good_init p)
+
+/-- hence every state of an etcd replay has at most one holder with a live lease -/
+theorem replay_states_mutex_etcd (p : Etcd.Params) (cs : List Etcd.Cmd) (s : Etcd.State)
+    (hs : s ∈ Etcd.replayStates p.ttl Etcd.init cs) (i j : Nat)
+    (hi : s.phase i = .holding) (hj : s.phase j = .holding)
+    (li : s.leaseAlive i = true) (lj : s.leaseAlive j = true) : i = j :=
+  mutex_etcd_live p s (replay_reachable_etcd p cs s hs) i j hi hj li lj
+
+/-- **The specification the oracle evaluates on the implementation's results holds of the model's
+    own results** (mutual-exclusion clause, Redis): replaying any schedule in the model and feeding
+    the model's results to `Spec.specStep` never yields `C18:two-holders-within-lease`, whatever the
+    timing flags. -/
+theorem replay_satisfies_mutex_spec_redis (p : Redis.Params) (hp : 0 < p.wait) (cs : List Redis.Cmd)
+    (fs : List Spec.Flag) :
+    Spec.tagTwoHolders ∉ (Spec.specReplayRedis p {} Redis.init cs fs).viol := by
+  apply Spec.jr_replay hp cs {} Redis.init fs _ .init
+  exact ⟨rfl, fun h hh => (by cases hh), (by intro h; cases h)⟩
+
+/-- **waiter_progress (Redis).**  A client inside `Obtain` is never stuck: its attempt is enabled, or
+    it is past its deadline and `giveup` is enabled (for `TryLock` as well), or time can pass towards
+    its next attempt and deadline. -/
+theorem waiter_progress_redis (p : Redis.Params) (s : Redis.State) (i : Nat) (m : Redis.Mode) (tok na dl : Nat)
+    (hi : s.cl i = .trying m tok na dl) :
+    (na ≤ s.wall ∧ s.wall < dl ∧ Redis.Step p s (Redis.attempt p s i m tok dl)) ∨
+    (dl ≤ s.wall ∧ Redis.Step p s (Redis.setCl s i .failed)) ∨
+    (s.wall < na ∧ s.wall < dl ∧ Redis.Step p s { s with wall := s.wall + 1 }) :=
+  Redis.trying_progress p s i m tok na dl hi
 
 /-! Non-vacuity: reachable WithinLease states with a holder and a queued waiter / a failed try. -/
 example : ∃ s, Etcd.ReachWL ⟨3, 1⟩ s ∧ s.phase 0 = .holding ∧ s.phase 1 = .waiting 3 ∧ s.phase 2 = .tryFailing := by
